@@ -81,6 +81,7 @@ def gen_case(rng, tier):
         'lr': float(rng.choice([0.1, 1.0])),
         'inject': bool(rng.random() < 0.6),
         'rankdef': bool(rng.random() < 0.3),
+        'negeig': bool(rng.random() < 0.3),
         'model_dtype': str(rng.choice(['float32', 'float32', 'float64'])),
         'factor_dtype': str(rng.choice(['None', 'float32', 'float64'])),
         'inv_dtype': str(rng.choice(['float32', 'float64'])),
@@ -128,6 +129,10 @@ def run_impl(c):
                     spec = 10.0 ** rng.uniform(-3, 0, size=n)
                     if c['rankdef'] and n > 1:
                         spec[: max(1, n // 3)] = 0.0
+                    if c.get('negeig') and key == 'G':
+                        # an indefinite factor (as low-precision storage produces): a negative eigenvalue comparable to the
+                        # damping; the eigen method must treat it as 0 (PSD projection), the inverse method inverts G + damping I as is
+                        spec[0] = -0.5 * float(p.damping)
                     fs[key] = torch.tensor(psd(rng, n, spec), dtype=fs[key].dtype)
             p.load_state_dict(sd)
         passes()
